@@ -47,16 +47,24 @@ Plan gen_c07(uint64_t seed, int tier)
     p.cfg["logger" + std::to_string(i) + "_sinks"] = r.range(1, (1 << nsinks) - 1);
     p.cfg["logger" + std::to_string(i) + "_clock"] = clock;
   }
-  // one run in three: a further logger that only the main thread uses and that the main thread removes (asynchronously) somewhere
+  // one run in two: a further logger that only the main thread uses and that the main thread removes (asynchronously) somewhere
   // before the stop / exit / signal — what it logged through it before is owed like everything else
   int priv_logger = -1;
   {
     Rng rr(seed ^ 0x9e7c07);
-    if (rr.chance(1, 3))
+    if (rr.chance(1, 2))
     {
       priv_logger = nloggers;
       p.cfg["nloggers"] = nloggers + 1;
-      p.cfg["logger" + std::to_string(priv_logger) + "_sinks"] = rr.range(1, (1 << nsinks) - 1);
+      int64_t mask = rr.range(1, (1 << nsinks) - 1);
+      if (rr.chance(1, 2))
+      {
+        // a file sink of its own (no other logger reaches it)
+        p.cfg["sink" + std::to_string(nsinks) + "_type"] = 1;
+        mask = rr.chance(1, 2) ? (mask | (int64_t{1} << nsinks)) : (int64_t{1} << nsinks);
+        p.cfg["nsinks"] = nsinks + 1;
+      }
+      p.cfg["logger" + std::to_string(priv_logger) + "_sinks"] = mask;
       p.cfg["logger" + std::to_string(priv_logger) + "_clock"] = clock;
     }
   }
@@ -595,7 +603,7 @@ void register_c07(std::vector<Profile>& v)
   p.stub_components = {"clock (virtual)", "alarm() (recorded, never armed: the 20 s watchdog is real time)", "scheduling (simulator); after exit() began the "
                        "other user threads finish their current call and park"};
   p.assumptions = {"plain flavour only (ASan installs its own SIGSEGV handling)", "return from main is exit(n) by the C++ standard and is exercised as exit(n)"};
-  p.quick_runs = 20000;
+  p.quick_runs = 32000;
   p.thorough_runs = 300000;
   v.push_back(p);
 }
